@@ -39,6 +39,7 @@ type CEnv struct {
 	depth  int
 	wmEntry *Term
 	want    types.Type // expected type for untyped constants (spec bodies)
+	pats    *[]string  // pattern candidates for the innermost quantifier
 	// side conditions produced while evaluating (definedness not checked)
 }
 
@@ -605,10 +606,14 @@ func (ce *CEnv) index(x CVal, i CVal) CVal {
 		region, es := ce.elemRegion(u.Elem())
 		mem := ce.u.heapGet(ce.heap, region)
 		row := mk(arraySort(bvSort(64), es), "select", mem, sBase(x.T))
-		return CVal{T: mk(es, "select", row, mk(bvSort(64), "bvadd", sOff(x.T), i.T)), Ty: u.Elem()}
+		r := mk(es, "select", row, mk(bvSort(64), "bvadd", sOff(x.T), i.T))
+		ce.patCandidate(r.S, i.T.S)
+		return CVal{T: r, Ty: u.Elem()}
 	case *types.Array:
 		es := ce.te().sortOf(u.Elem())
-		return CVal{T: mk(es, "select", x.T, i.T), Ty: u.Elem()}
+		r := mk(es, "select", x.T, i.T)
+		ce.patCandidate(r.S, i.T.S)
+		return CVal{T: r, Ty: u.Elem()}
 	case *types.Basic:
 		if isStringType(x.Ty) {
 			return CVal{T: mk(bvSort(8), "strat", x.T, i.T), Ty: types.Typ[types.Byte]}
@@ -944,7 +949,19 @@ func (ce *CEnv) callSpec(sf *SpecFunc, e *ECall) CVal {
 			if u.specRec[hkey] {
 				kw = "define-fun-rec"
 			}
-			u.sc.defs = append(u.sc.defs, fmt.Sprintf("(%s %s (%s) %s %s)", kw, defName, strings.Join(formals, " "), rs, r.T.S))
+			if u.specRec[hkey] && u.fn != nil {
+				// recursive spec functions are opaque inside function proofs: everything known
+				// about them comes from explicitly applied lemmas (which are proved against the
+				// definition in their own units)
+				var sorts []string
+				for _, a := range actuals {
+					sorts = append(sorts, a.Sort)
+				}
+				u.sc.defs = append(u.sc.defs, fmt.Sprintf("(declare-fun %s (%s) %s)", defName, strings.Join(sorts, " "), rs))
+				u.opaqueSpecs[sf.Name] = true
+			} else {
+				u.sc.defs = append(u.sc.defs, fmt.Sprintf("(%s %s (%s) %s %s)", kw, defName, strings.Join(formals, " "), rs, r.T.S))
+			}
 			u.specDefs[hkey] = defName
 		}
 	}
@@ -967,13 +984,22 @@ func heapKey(h Heap) string {
 	return sb.String()
 }
 
+func (ce *CEnv) patCandidate(term, idx string) {
+	if ce.pats != nil && strings.Contains(idx, "q!") {
+		*ce.pats = append(*ce.pats, term)
+	}
+}
+
 func (ce *CEnv) quant(e *EQuant) CVal {
 	n := *ce
+	var pats []string
+	n.pats = &pats
 	n.bound = make(map[string]CVal, len(ce.bound)+len(e.Vars))
 	for k, v := range ce.bound {
 		n.bound[k] = v
 	}
 	var binders []string
+	var boundNames []string
 	var ranges []Term
 	for _, v := range e.Vars {
 		ty := n.resolveType(v.T)
@@ -981,6 +1007,7 @@ func (ce *CEnv) quant(e *EQuant) CVal {
 		ce.u.qn++
 		name := fmt.Sprintf("q!%s!%d", v.Name, ce.u.qn)
 		n.bound[v.Name] = CVal{T: Term{name, s}, Ty: ty}
+		boundNames = append(boundNames, name)
 		binders = append(binders, fmt.Sprintf("(%s %s)", name, s))
 		_ = ranges
 	}
@@ -992,5 +1019,61 @@ func (ce *CEnv) quant(e *EQuant) CVal {
 	if e.Forall {
 		q = "forall"
 	}
-	return CVal{T: Term{fmt.Sprintf("(%s (%s) %s)", q, strings.Join(binders, " "), body.T.S), SBool}, Ty: types.Typ[types.Bool]}
+	// explicit patterns: array reads indexed by the bound variables (each must mention every variable)
+	var use []string
+	seen := map[string]bool{}
+	for _, p := range pats {
+		ok := !seen[p]
+		for _, vn := range boundNames {
+			if !strings.Contains(p, vn) {
+				ok = false
+			}
+		}
+		// a pattern may not contain nested quantifier variables of inner scopes
+		if ok && strings.Count(p, "q!") >= 1 {
+			for _, tok := range strings.FieldsFunc(p, func(r rune) bool { return r == ' ' || r == '(' || r == ')' }) {
+				if strings.HasPrefix(tok, "q!") {
+					mine := false
+					for _, vn := range boundNames {
+						if tok == vn {
+							mine = true
+						}
+					}
+					if !mine {
+						if _, outer := ce.boundByName(tok); !outer {
+							ok = false
+						}
+					}
+				}
+			}
+		}
+		if ok {
+			seen[p] = true
+			use = append(use, p)
+		}
+	}
+	if ce.pats != nil {
+		// candidates mentioning outer variables remain candidates for the outer quantifier
+		*ce.pats = append(*ce.pats, pats...)
+	}
+	bodyS := body.T.S
+	if len(use) > 0 && len(use) <= 4 && e.Forall {
+		var sb strings.Builder
+		sb.WriteString("(! " + bodyS)
+		for _, p := range use {
+			sb.WriteString(" :pattern (" + p + ")")
+		}
+		sb.WriteString(")")
+		bodyS = sb.String()
+	}
+	return CVal{T: Term{fmt.Sprintf("(%s (%s) %s)", q, strings.Join(binders, " "), bodyS), SBool}, Ty: types.Typ[types.Bool]}
+}
+
+func (ce *CEnv) boundByName(smtName string) (CVal, bool) {
+	for _, v := range ce.bound {
+		if v.T.S == smtName {
+			return v, true
+		}
+	}
+	return CVal{}, false
 }
